@@ -96,6 +96,7 @@ Theorem Params_Validate_tie p thr frac w mm : 0 <= p < two64 -> 0 <= w < two64 -
     valid_params p w mm && (500000000000000000 <=? thr) && (thr <=? prec) && (0 <=? frac) && (frac <=? prec).
 Proof.
   intros Hp Hw Hm. unfold Params_Validate, valid_params, max_vote_period, dec_of_int, prec.
+  autounfold with translated.   (* constants the source may have moved into helper functions *)
   rewrite ?gtb_ltb, ?geb_leb.
   (* every path through the guards of the source, each closed by linear arithmetic over the comparisons *)
   repeat match goal with
